@@ -45,6 +45,8 @@ pub fn spec_for(property: &str) -> Option<CheckSpec> {
         "C02" => CheckSpec { property: "C02", level: "exploration", parts: vec![part("agent-c02", 3000, 300_000), part("agent-mix", 1000, 100_000)], assumptions: a() },
         "C03" => CheckSpec { property: "C03", level: "exploration", parts: vec![part("agent-c03", 3000, 300_000), part("agent-mix", 1000, 100_000)], assumptions: a() },
         "C04" => CheckSpec { property: "C04", level: "exploration", parts: vec![part("agent-c04", 3000, 300_000), part("agent-mix", 1000, 100_000)], assumptions: a() },
+        "C05" => CheckSpec { property: "C05", level: "fault_enumeration", parts: vec![part("agent-c05", 3000, 300_000), part("agent-mix", 1000, 100_000)], assumptions: a() },
+        "C20" => CheckSpec { property: "C20", level: "exploration", parts: vec![part("agent-c20", 3000, 300_000), part("agent-mix", 1000, 100_000)], assumptions: a() },
         "C14" => CheckSpec { property: "C14", level: "exploration", parts: vec![part("agent-c14", 3000, 200_000), part("agent-mix", 1000, 100_000)], assumptions: a() },
         _ => return None,
     })
